@@ -229,7 +229,7 @@ class DiskImageContentInjector(DiskImageWorker):
 
         listener.onBeginOfSide(self._currentSide)
         for src in args.sources:
-            dotPos = src.rfind(".")
+            dotPos = src.rfind(".", src.rfind("/") + 1)
             fileName = os.path.basename(src.upper())
 
             # Either manage user decided change of side...
